@@ -337,7 +337,8 @@ impl Walrus {
                             used += consumed as u64;
                             in_block_off += consumed as u64;
                             entries_in_block = entries_in_block.saturating_add(1);
-                            if in_block_off >= DEFAULT_BLOCK_SIZE {
+                            // no room for another header: do not read past the block (and the file)
+                            if in_block_off + PREFIX_META_SIZE as u64 > DEFAULT_BLOCK_SIZE {
                                 break;
                             }
                         }
